@@ -22,48 +22,69 @@ Theorem C20_draw : forall e, bytes_ok (e_rand e) ->
 Proof. intros e H. split; [now apply rand1_lt|]. split; [now apply rand2_lt|now apply new_id_machine_id]. Qed.
 Print Assumptions C20_draw.
 
-(* no stored id: it is created from the draw, stored and returned *)
+(* no stored id: either the id of this draw and clock is created, stored and returned, or storing failed
+   (write or link error), the io error is returned and there is NO id file afterwards - never an empty
+   or partial one *)
 Theorem C20_fresh : forall utf8_valid, (forall s, Forall (fun c => c < 128) s -> utf8_valid s = true) ->
-  forall e f, DrawOK e -> e_write_ok e = true -> f machine_id_path = None ->
-  exists id, get_machine_id utf8_valid e f = Ok (id, fs_write machine_id_path id f)
-             /\ id = new_id e /\ MachineId id.
+  forall e f, DrawOK e -> f machine_id_path = None ->
+  exists f1, snd (get_machine_id utf8_valid e f) = f1 /\
+    match e_write e, e_link e with
+    | WriteDone, LinkDone =>
+        fst (get_machine_id utf8_valid e f) = Ok (new_id e) /\ f1 machine_id_path = Some (new_id e) /\ MachineId (new_id e)
+    | _, _ => fst (get_machine_id utf8_valid e f) = Err /\ f1 machine_id_path = None
+    end.
 Proof. exact get_machine_id_fresh. Qed.
 Print Assumptions C20_fresh.
 
-(* a stored id is returned unchanged and nothing is written, whatever is drawn *)
+(* a stored id is returned unchanged and nothing is touched, whatever is drawn *)
 Theorem C20_stored : forall utf8_valid e f id, f machine_id_path = Some id -> utf8_valid id = true ->
-  get_machine_id utf8_valid e f = Ok (id, f).
+  get_machine_id utf8_valid e f = (Ok id, f).
 Proof. exact get_machine_id_stored. Qed.
 Print Assumptions C20_stored.
 
-(* the id returned once is returned by every later call, for every later draw and clock value *)
-Theorem C20_stable : forall utf8_valid, (forall s, Forall (fun c => c < 128) s -> utf8_valid s = true) ->
-  forall e f id f1, DrawOK e ->
-  (forall c, f machine_id_path = Some c -> utf8_valid c = true) ->
-  get_machine_id utf8_valid e f = Ok (id, f1) ->
-  f1 machine_id_path = Some id /\ forall e2, get_machine_id utf8_valid e2 f1 = Ok (id, f1).
-Proof. exact get_machine_id_stable. Qed.
-Print Assumptions C20_stable.
-
-(* the composed statement about the id: from any state the environment assumption allows (no id file
-   yet, or the file holds what create_and_store wrote for some earlier draw and clock - i.e. nobody
-   else writes /tmp/dbus_machine_uuid), the id returned is a 32-digit hexadecimal string and every
-   later call returns the same string, whatever is drawn, read from the clock or writable later *)
+(* the composed statement about the id. The ONLY hypothesis on the file system is IdFileOK: nobody but
+   this code writes /tmp/dbus_machine_uuid (it is absent, or holds the complete id made for some earlier
+   draw and clock). For every draw, clock value and outcome of write/link/remove: no panic; a returned id
+   is 32 hexadecimal digits, is the stored id, and every later call returns exactly that string and
+   leaves the file system alone; an error means storing failed and there is still no id file; the
+   invariant holds afterwards *)
 Theorem C20_id_always_32hex : forall utf8_valid, (forall s, Forall (fun c => c < 128) s -> utf8_valid s = true) ->
-  forall e f, DrawOK e ->
-  match f machine_id_path with
-  | None => e_write_ok e = true
-  | Some c => exists e0, bytes_ok (e_rand e0) /\ c = new_id e0
-  end ->
-  exists id f1, get_machine_id utf8_valid e f = Ok (id, f1) /\ MachineId id
-                /\ forall e2, get_machine_id utf8_valid e2 f1 = Ok (id, f1).
+  forall e f, DrawOK e -> IdFileOK f ->
+  let (r, f1) := get_machine_id utf8_valid e f in
+  IdFileOK f1 /\
+  match r with
+  | Ok id => MachineId id /\ f1 machine_id_path = Some id
+             /\ forall e2, get_machine_id utf8_valid e2 f1 = (Ok id, f1)
+  | Err => f machine_id_path = None /\ f1 machine_id_path = None
+           /\ (e_write e <> WriteDone \/ e_link e = LinkFailed)
+  | _ => False
+  end.
 Proof. exact id_always_32hex. Qed.
 Print Assumptions C20_id_always_32hex.
+
+(* in EVERY state reachable by any sequence of handle_peer_message calls (any messages, draws, clock
+   values, failed writes, failed links, panicking handlers) the id file is absent or holds a complete
+   32-hex-digit id, and an id once stored is never replaced *)
+Theorem C20_stable : forall utf8_valid, (forall s, Forall (fun c => c < 128) s -> utf8_valid s = true) ->
+  forall f0 f, Reach utf8_valid f0 f ->
+  (IdFileOK f0 -> IdFileOK f) /\ (forall c, f0 machine_id_path = Some c -> f machine_id_path = Some c).
+Proof.
+  intros u Hu f0 f HR. split; [intros H0; eapply reach_invariant; eauto|intros c Hc; eapply reach_keeps; eauto].
+Qed.
+Print Assumptions C20_stable.
+
+(* IdFileOK says what it should: the stored string is a machine id *)
+Theorem C20_id_file_ok : forall f, IdFileOK f ->
+  f machine_id_path = None \/ exists id, f machine_id_path = Some id /\ MachineId id.
+Proof.
+  intros f [H|(e0 & Hb & H)]; [left; exact H|right]. exists (new_id e0). split; [exact H|now apply new_id_machine_id].
+Qed.
+Print Assumptions C20_id_file_ok.
 
 (* EVERY other message - any type other than method call, any other interface or member, absent
    fields - is not handled, nothing is written, nothing is stored *)
 Theorem C20_peer_other : forall utf8_valid e f m, ~ IsPeerCall m ->
-  handle_peer_message utf8_valid e f m = Ok (false, [], f).
+  handle_peer_message utf8_valid e f m = (Ok (false, []), f).
 Proof. intros u e f m H. now apply handle_peer_other. Qed.
 Print Assumptions C20_peer_other.
 
@@ -80,32 +101,29 @@ Print Assumptions C20_peer_call_iff.
 (* method call Peer.Ping: handled, exactly one message written, the empty method return with the
    call's serial addressed to its sender *)
 Theorem C20_peer_ping : forall utf8_valid e f m, IsPing m ->
-  exists r, handle_peer_message utf8_valid e f m = Ok (true, [r], f) /\ EmptyReplyTo m r.
+  exists r, handle_peer_message utf8_valid e f m = (Ok (true, [r]), f) /\ EmptyReplyTo m r.
 Proof.
   intros u e f m H. exists (make_response (m_dh m)). split; [now apply handle_peer_ping|].
   apply make_response_empty_reply.
 Qed.
 Print Assumptions C20_peer_ping.
 
-(* method call Peer.GetMachineId: handled, exactly one message written, a method return with the
-   call's serial addressed to its sender whose body is the id: the stored one, or a fresh
-   32-hex-digit one that is stored *)
+(* method call Peer.GetMachineId, nobody else writing the id file: unless storing a fresh id fails (an
+   environment failure), handled, exactly one message written, a method return with the call's serial
+   addressed to its sender whose body is a 32-hex-digit id: the stored one, or the fresh one, now stored *)
 Theorem C20_peer_get_id : forall utf8_valid, (forall s, Forall (fun c => c < 128) s -> utf8_valid s = true) ->
-  forall e f m, IsGetMachineId m -> DrawOK e ->
-  match f machine_id_path with
-  | Some c => utf8_valid c = true /\ existsb (N.eqb 0) c = false
-  | None => e_write_ok e = true
-  end ->
-  exists id f1 r, handle_peer_message utf8_valid e f m = Ok (true, [r], f1)
-    /\ ReplyTo m r /\ m_body r = [id] /\ f1 machine_id_path = Some id
+  forall e f m, IsGetMachineId m -> DrawOK e -> IdFileOK f ->
+  (f machine_id_path = None -> e_write e = WriteDone /\ e_link e = LinkDone) ->
+  exists id f1 r, handle_peer_message utf8_valid e f m = (Ok (true, [r]), f1)
+    /\ ReplyTo m r /\ m_body r = [id] /\ MachineId id /\ f1 machine_id_path = Some id
     /\ match f machine_id_path with
        | Some c => id = c /\ f1 = f
-       | None => id = new_id e /\ MachineId id /\ f1 = fs_write machine_id_path id f
+       | None => id = new_id e
        end.
 Proof.
-  intros u Hu e f m Hm Hd Hpre.
-  destruct (handle_peer_get_id u Hu e f m Hm Hd Hpre) as (id & f1 & H1 & H2 & H3).
+  intros u Hu e f m Hm Hd Hinv Hpre.
+  destruct (handle_peer_get_id u Hu e f m Hm Hd Hinv Hpre) as (id & f1 & H1 & H2 & H3 & H4).
   exists id, f1, (push_str id (make_response (m_dh m))). split; [exact H1|].
-  split; [apply push_str_reply, make_response_empty_reply|]. split; [reflexivity|]. split; [exact H2|exact H3].
+  split; [apply push_str_reply, make_response_empty_reply|]. split; [reflexivity|]. auto.
 Qed.
 Print Assumptions C20_peer_get_id.
